@@ -237,6 +237,10 @@ func ParseSearchQueryPlaceholdersSettings(statement sqlparser.Statement, schemaS
 			case *sqlparser.SubstrExpr:
 				colName = expr.Name
 			}
+			if colName == nil {
+				// the left side is not a column (a constant or a placeholder, as in `? < id`)
+				return true, nil
+			}
 
 			columnInfo, err := FindColumnInfo(tableExps, colName, schemaStore)
 			if err != nil {
